@@ -632,3 +632,14 @@ for (limit, sb, alt, drain) in (("Some(1)", 3, 0, True), ("Some(3)", 5, 0, False
     inst("gc__1x3_sb%d_l%s_pri_%s" % (sb, limit.replace("Some(", "").replace(")", ""), "drain" if drain else "drop"), "terminal",
          "t_gc(%s, %s, true)" % (tcfg(1, 3, **kw), "true" if drain else "false"), max(3 + sb, 14) + 3, {"C13": T, "C14": T, "C12": T}, mem=8, timeout=1500,
          desc="gc() on a 1x3 screen with %d scrollback lines, limit %s" % (sb, limit), bounds=geo_desc(1, 3, **kw), optional_covers=["something is trimmed", "nothing is trimmed"])
+
+# ----------------------------------------------------------------------------- geometries with rows *below* the region that are not the last row (4 rows, region 0..1)
+for op in ("LfOffMargin", "NelOffMargin"):
+    nocell(op, 3, 4, {"C05": Q if op == "LfOffMargin" else T, "C02": T}, geo=(2, 0, 1), optional=SMALL_OPT)
+    nocell(op, 3, 4, {"C05": T}, geo=(0, 1, 2), optional=SMALL_OPT)
+nocell("RiOffMargin", 3, 4, {"C05": T}, geo=(3, 0, 1), optional=SMALL_OPT)
+prnt(3, 4, 2, 0, 1, {"C04": Q, "C15": T, "C02": T}, opt=PR_OPT_NOSCROLL, mem=12)
+for op in ("Il", "Dl"):
+    scroll(op, 3, 4, 2, 0, 1, {"C06": T, "C15": Q if op == "Dl" else T, "C14": T}, mem=12)
+switch("Enter1047", 3, 3, 0, {"C16": Q, "C02": T, "C17": T, "C08": T}, parked_rows=2, asrow=1, suffix="_stale_grow")
+switch("Enter1049", 3, 3, 0, {"C16": T, "C17": T}, parked_rows=1, asrow=0, suffix="_stale_grow")
